@@ -68,7 +68,7 @@ def main(argv=None):
     # 1. regenerate the translated tables from /repo's working tree
     from . import translate
     with common.build_lock():        # checks may run in parallel: regeneration + build + audit are serialised
-        gen_fail = translate.regenerate()
+        gen_fail = translate.regenerate(prop)
         # 2./3. proofs + audit
         lean = common.lean_check(mod.PROP_MODULE, thorough=ctx.thorough)
     for g in gen_fail:
